@@ -6,7 +6,35 @@ STD_ASSUME = ["the Lean model is tied to /repo by the T1 extractor and the T2 co
 HOOK_COMMITS = []
 
 PROPS = {
+    "C04": {
+        "model_modules": ["TemplVerif.Model.Url"],
+        "proof_modules": ["TemplVerif.Proofs.Url"],
+        "thorough_shards": 12,
+        "rule": "exhaustive: every string over the 27-symbol alphabet {j J a h H t T p P s S : / \\ ? # % & ; TAB LF CR space NUL "
+                "U+017F e-acute 0xFF} to length 4 (quick) / 5 (thorough; plus a 16-symbol core to length 6); every case mask x "
+                "whitespace/control/entity insertion at every position of 12 scheme names x 5 tails; mutations of 50 known XSS vectors; "
+                "random strings up to 40 symbols. Distinct = distinct input string; non-trivial = contains ':' (the sanitiser takes its "
+                "protocol branch).",
+        "exhaustive": True,
+        "proved": ["C04_main: sanitize s = s -> browser (WHATWG) scheme is none or allow-listed (or s is the failure URL), for every byte string",
+                   "C04_else: any other input is replaced by the failure URL",
+                   "C04_schemes_pinned / C04_failedURL_pinned: the tables regenerated from url.go equal the statement's lists"],
+        "monitored": ["model = real templ.URL on every explored string", "okPair(s, templ.URL(s)) evaluated in Lean on the real outputs"],
+        "partial": ["'href/action only through the safe-URL type' is a Go type-checker fact: observed by C02's compiled batches (negative program), not proved"],
+        "trusted_base": ["strings.IndexRune/ContainsRune on ASCII = byte search; strings.EqualFold against ASCII literals modelled with simple folding (U+017F, U+212A)",
+                         "WHATWG URL scheme-state specification transcribed by hand (Whatwg.scheme)"],
+        "assumptions": STD_ASSUME,
+    },
     "C17": {
+        "claimed": True,
+        "level_text": "Lean 4 theorems (C17_main, C17_nil, C17_wf, C17_hist; 56 lemmas, kernel-checked, axioms audited) prove that the "
+                      "model of Document.Apply equals the editor's byte splice for every document, every ordered range (clamped) and "
+                      "every text, and by induction for every edit history. The model is a function-by-function transcription of "
+                      "documentcontents.go and is compared with the real Document.Apply on an exhaustive small-document space plus random "
+                      "edit histories on every run; the Lean splice specification is also evaluated on the real outputs.",
+        "level_note": "Trusted: Lean kernel; strings.Split/Join modelled as splitLF/joinLF; the hand transcription of Document.* (tied by the "
+                      "differential run only: 6.9e4 cases quick, exhaustive over {a,LF}^<=5); positions are byte offsets (as in the code), "
+                      "reversed ranges are outside the statement.",
         "model_modules": ["TemplVerif.Model.Doc"],
         "proof_modules": ["TemplVerif.Proofs.Doc"],
         "rule": "exhaustive: every document over {a,LF} up to 5 (quick) / 7 (thorough) bytes x every range with "
